@@ -87,7 +87,7 @@ def render_rhs(r, style="frac", explicit_last=True):
             parts.append(render_expr(e, style))
             last = i == len(items) - 1
             if p is not None and not (last and not explicit_last):
-                parts.append("{" + _num_str(p, "frac") + "}")
+                parts.append("{" + (render_expr(p, style) if isinstance(p, list) else _num_str(p, "frac")) + "}")
         return " ".join(parts)
     if t == "draw":
         return f"{r[1]}({', '.join(render_expr(a, style) for a in r[2])})"
